@@ -357,7 +357,7 @@ Lemma asm_vol_v_len pol ffs3 h buf files h' b :
   zlen b = v_length h /\ v_length h' = v_length h.
 Proof.
   intros H Hv Hr.
-  destruct (asm_vol_v_inv _ _ _ _ _ _ _ _ H Hv Hr)
+  destruct (asm_vol_v_inv _ _ _ _ _ _ _ H Hv Hr)
     as (hdr & b1 & c & s & rest & hb & Hs & Hp & Hl & Hd & He & Hb & Hz).
   cbv zeta in Hz. destruct Hz as (L60 & L4 & Hsl & -> & Hlen & _).
   split; [|exact Hlen].
@@ -379,8 +379,8 @@ Lemma asm_vol_empty_fixed pol ffs3 h buf h' b :
 Proof.
   intros Hsup Hr Hd H.
   assert (Hv : vol_verbatim h [] = false) by (unfold vol_verbatim; rewrite Hsup; reflexivity).
-  destruct (asm_vol_v_len _ _ _ _ _ _ _ _ H Hv Hr) as [L1 L2]. repeat split; auto.
-  destruct (asm_vol_v_inv _ _ _ _ _ _ _ _ H Hv Hr)
+  destruct (asm_vol_v_len _ _ _ _ _ _ _ H Hv Hr) as [L1 L2]. repeat split; auto.
+  destruct (asm_vol_v_inv _ _ _ _ _ _ _ H Hv Hr)
     as (hdr & b1 & c & s & rest & hb & Hs & Hp & Hl & Hdo & He & Hb & Hz).
   cbv zeta in Hz. destruct Hz as (L60 & L4 & Hsl & -> & Hlen & _).
   cbn [place_files] in Hp. inversion Hp; subst b1. clear Hp.
@@ -567,8 +567,8 @@ Lemma asm_elems_v_app a b st :
    do r2 <- asm_elems enc s2u b st1; let '(b', st2) := r2 in Ok (a' ++ b', st2)).
 Proof.
   revert st. induction a as [|x r IH]; intros st.
-  - cbn [app asm_elems_v bind]. destruct (asm_elems enc s2u b st) as [[b' st2]| | |]; reflexivity.
-  - cbn [app asm_elems_v]. destruct (asm enc s2u x st) as [[x' st1]| | |]; cbn [bind]; try reflexivity.
+  - cbn [app asm_elems bind]. destruct (asm_elems enc s2u b st) as [[b' st2]| | |]; reflexivity.
+  - cbn [app asm_elems]. destruct (asm enc s2u x st) as [[x' st1]| | |]; cbn [bind]; try reflexivity.
     rewrite IH. destruct (asm_elems enc s2u r st1) as [[r' st2]| | |]; cbn [bind]; try reflexivity.
     destruct (asm_elems enc s2u b st2) as [[b' st3]| | |]; reflexivity.
 Qed.
